@@ -26,7 +26,7 @@ CLAIMED = {
         "DESIGN.md 4.3",
     ),
     "C12": (
-        "static path/dominance rules: CRC-failure exit returns the whole candidate as one non-RTCM message, no content-dependent exit or push-back while a candidate is read, CRC gate completeness, C02 conservation",
+        "static path/dominance rules: CRC-failure exit returns the whole candidate as one non-RTCM message, no content-dependent exit or push-back while a candidate is read, leader-only rejection sites of the five-byte helper, CRC gate completeness, week-state changes dominated by the CRC-success edge, C02 conservation",
         "Decides that a CRC failure cannot move a frame boundary and costs exactly the candidate frame, on every path.",
         "the corrupted frame's CRC differs (2^-24 residual inherent to CRC)",
         "DESIGN.md 4.12",
@@ -44,7 +44,7 @@ CLAIMED = {
         "DESIGN.md 4.5",
     ),
     "C06": (
-        "static dataflow/dominance rules: lost-update (copy-of-receiver) analysis, per-constellation field separation, type-dispatch table extraction, no-store-on-error paths, strict rollover comparison, constant evaluation",
+        "static dataflow/dominance rules: lost-update (copy-of-receiver) analysis, per-constellation field separation, type-dispatch table extraction, no-store-on-error paths, strict rollover comparison, result-shape rule of the Glonass converter, state changes only after the CRC gate, constant evaluation",
         "Decides structural necessary conditions of the week bookkeeping (state persistence, constellation separation, dispatch tables over the whole type domain, no state write on error paths, strict rollover test with +7 days, offset/limit constants). Does not decide numerical equality of reported times.",
         "time.Time arithmetic and calendar trusted; oracle constants from the property statement",
         "DESIGN.md 4.6",
@@ -56,19 +56,19 @@ CLAIMED = {
         "DESIGN.md 4.7",
     ),
     "C08": (
-        "static dimensional/fixed-point typing of the formula methods over SSA (unit, binary exponent, decimal exponent, sign, bit ranges for |), sentinel constants against the layout widths, zero-result guards, numeric constants, frequency-table partition over all signal ids",
+        "static dimensional/fixed-point typing of the formula methods over SSA (unit, binary exponent, decimal exponent, sign, bit ranges for |), sentinel constants against the layout widths, marker tests (==/!= against exactly the field's marker), zero-result guards, numeric constants, frequency-table partition over all signal ids, operand ownership (no package-level storage in the cell packages)",
         "Decides for all field values that each formula has the standard's scale/unit/sign and that invalid markers are handled as stated; floating-point rounding is not computed.",
         "field units from the oracle (RTCM DF definitions); documented frequency table taken as given",
         "DESIGN.md 4.8",
     ),
     "C09": (
-        "static concurrency-structure analysis: channel close-site ownership, single-sender, fan-out path rule, completion-on-close dominance, termination chain, go-operand confinement, Kahn-determinism effect check",
+        "static concurrency-structure analysis: channel close-site ownership, single-sender, fan-out path rule, completion-on-close dominance, termination chain, go-operand confinement, Kahn-determinism effect check, forward-once and transient-gap (EOF clock / error classification) rules of the reader stage",
         "Decides the ownership/ordering/completion/confinement discipline that makes the pipeline schedule-independent (all schedules, all chunkings): one closer per channel, one sender per channel, synchronous in-order fan-out of the received value to every non-nil consumer, return only on closed channel, no shared mutable state. Does not execute schedules.",
         "Go channel semantics and memory model trusted; consumers supplied by callers are outside",
         "DESIGN.md 4.9",
     ),
     "C11": (
-        "static happens-before (join) analysis on SSA CFG: signal-after-last-write, wait-on-every-return-path, close-before-wait, WaitGroup.Add-before-go; consumer-loop path rules",
+        "static happens-before (join) analysis on SSA CFG: signal-after-last-write (deferred calls in LIFO order, Flush/Sync count as writes), wait-on-every-return-path, close-before-wait, WaitGroup.Add-before-go; consumer-loop path rules",
         "Decides whether a close->wait join exists between every writer goroutine and every return of the entry point: with it no schedule can lose output, without it some schedule does. All schedules and writer latencies are covered by the happens-before argument, not sampled.",
         "writer.Write is synchronous (true of os.Stdout, files, bytes.Buffer); Go memory model",
         "DESIGN.md 4.11",
@@ -80,7 +80,7 @@ CLAIMED = {
         "DESIGN.md 4.10",
     ),
     "C13": (
-        "static classification of every return of the file handler by its dominating conditions (retryable vs fatal, zero tolerance, tolerance elapsed), forward-once path rule with the bufio short-read argument, EOF-clock phi analysis, close/flush rules",
+        "static classification of every return of the file handler by its dominating conditions (retryable vs fatal, zero tolerance, tolerance elapsed), forward-once path rule with the bufio short-read argument, EOF-clock phi analysis (cleared on success, started only when clear), close/flush rules",
         "Decides the retry structure for all placements of EOF/timeout results: which conditions stop the handler, that every byte read is forwarded exactly once, that the partial frame is flushed and the channel closed.",
         "bufio.Reader.Read contract for short destinations; real time not modelled",
         "DESIGN.md 4.13",
@@ -98,13 +98,13 @@ CLAIMED = {
         "DESIGN.md 4.16",
     ),
     "C17": (
-        "static information-flow (taint) analysis: start-time parameter as source, week quantiser as sanitiser, Handler fields as sinks; structural check of the quantiser",
+        "static information-flow (taint) analysis: start-time parameter as source, week quantiser as sanitiser, Handler fields as sinks; structural check of the quantiser; result-shape rule of the Glonass converter (no history-dependent re-basing)",
         "Decides non-interference of the start time modulo the week quantiser for all start times: any unquantised flow into handler state is reported with its def-use chain. Calendar arithmetic of the quantiser is assumed.",
         "time package semantics; quantiser granularity argued structurally (Sunday 00:00:00 UTC) and tested by the suite",
         "DESIGN.md 4.17",
     ),
     "C19": (
-        "static path rules on both relay loops (read->peer write exactly once, same buffer and n, fresh buffer), non-mutation scan, taint analysis of traffic-derived text to the status page with the escape helper as sanitiser, provenance (who may call Add / send on the byte channel)",
+        "static path rules on both relay loops (read->peer write exactly once, same buffer and n, fresh buffer, no write deadline while the write result is ignored), non-mutation scan, taint analysis of traffic-derived text to the status page with the escape helper as sanitiser, provenance (who may call Add / send on the byte channel)",
         "Decides the relay and escaping structure on every CFG path and every flow into the page; TCP/HTTP behaviour is outside.",
         "net.Conn Read/Write contracts; statusreporter dependency; escape helper adequacy = replaces '<' and '>' throughout",
         "DESIGN.md 4.19",
@@ -116,7 +116,7 @@ CLAIMED = {
         "DESIGN.md 4.18",
     ),
     "C20": (
-        "static table extraction: set-wise abstract interpretation of every classifier over the complete 4098-value type domain, compared with sibling tables and the oracle",
+        "static table extraction: set-wise abstract interpretation of every classifier over the complete 4098-value type domain, compared with sibling tables and the oracle; guard analysis of the display entry point (analysis skipped only when already done)",
         "All classification tables are extracted from the SSA of the current source and compared over the whole domain {-2,-1,0..4095}; exhaustive over message types. Decides table agreement, not that the reached decoders behave.",
         "go/types+go/ssa model of the source; oracle sets in oracles/classification.json; an unrecognised predicate form fails the check (sound, incomplete)",
         "DESIGN.md 4.20",
